@@ -469,8 +469,8 @@ def feature_counts(cases):
 def run(ctx):
     build_ok, obl, regen = core.std_setup(ctx)
     quick = ctx.quick()
-    ncoq = 260 if quick else 3000
-    nextra = 500 if quick else 12000
+    ncoq = 230 if quick else 3000
+    nextra = 400 if quick else 12000
     cases = corpus_cases()
     ncorpus = len(cases)
     cases += gen_cases(ctx.rng, ncoq)
